@@ -6,7 +6,8 @@ I = lambda lo, hi: ("int", lo, hi)
 def spec(tier):
     obs = []
     thorough = tier == "thorough"
-    K = 7 if thorough else 6
+    K = 8 if thorough else 6
+    CM, RM = (16, 128) if thorough else (8, 64)      # size ranges
     base = dict(cap_cpu=4, cap_ram=40, c1=1, r1=10, c2=1, r2=10, c3=1, r3=10, m1=1, m2=1, m3=1,
                 d1a=1, d1b=2, d2a=2, d3a=1, t2=1, sus_at=-1, overcommit=False, K=K)
 
@@ -20,23 +21,23 @@ def spec(tier):
     # V1a: CPU sizes symbolic (zero / negative / oversized requests), RAM valid
     for t2 in ((0, 1, 2) if thorough else (0, 1)):
         for sus in ((-1, 1, 2) if thorough else ((-1, 1) if t2 == 1 else (-1,))):
-            mk(f"cpu_t{t2}_s{sus}", dict(cap_cpu=I(0, 8), c1=I(-1, 9), c2=I(-1, 9), c3=I(-1, 9)),
+            mk(f"cpu_t{t2}_s{sus}", dict(cap_cpu=I(0, CM), c1=I(-1, CM + 1), c2=I(-1, CM + 1), c3=I(-1, CM + 1)),
                t2=t2, sus_at=sus)
     for t2 in (0, 1):
-        mk(f"cpu_oc1_t{t2}", dict(cap_cpu=I(0, 8), c1=I(-1, 9), c2=I(-1, 9), c3=I(-1, 9)), t2=t2, sus_at=-1, overcommit=True)
+        mk(f"cpu_oc1_t{t2}", dict(cap_cpu=I(0, CM), c1=I(-1, CM + 1), c2=I(-1, CM + 1), c3=I(-1, CM + 1)), t2=t2, sus_at=-1, overcommit=True)
     # V1b: RAM sizes symbolic, CPU valid, with and without overcommit
     for oc in (False, True):
         for t2 in ((0, 1, 2) if thorough else (0, 1)):
-            mk(f"ram_oc{int(oc)}_t{t2}_nosus", dict(cap_ram=I(0, 64), r1=I(-1, 65), r2=I(-1, 65), r3=I(-1, 65)),
+            mk(f"ram_oc{int(oc)}_t{t2}_nosus", dict(cap_ram=I(0, RM), r1=I(-1, RM + 1), r2=I(-1, RM + 1), r3=I(-1, RM + 1)),
                overcommit=oc, t2=t2, sus_at=-1, m1=0, m2=0, m3=0)
         for t2 in ((0, 1, 2) if thorough else (1,)):
             for sus in ((1, 2) if thorough else (1,)):
-                for lo, hi in ((-1, 19), (20, 39), (40, 65)):
-                    mk(f"ram_oc{int(oc)}_t{t2}_s{sus}_r{lo}", dict(cap_ram=I(0, 64), r1=I(lo, hi), r2=I(-1, 65)),
+                for lo, hi in (((-1, 19), (20, 39), (40, 65), (66, 99), (100, 129)) if thorough else ((-1, 19), (20, 39), (40, 65))):
+                    mk(f"ram_oc{int(oc)}_t{t2}_s{sus}_r{lo}", dict(cap_ram=I(0, RM), r1=I(lo, hi), r2=I(-1, RM + 1)),
                        overcommit=oc, t2=t2, sus_at=sus, m1=0, m2=0, m3=0, r3=5, timeout=240)
     # V1c: both dimensions of one late job + capacities
     for oc in (False, True):
-        mk(f"mixed_oc{int(oc)}", dict(cap_cpu=I(0, 8), cap_ram=I(0, 64), c2=I(-1, 9), r2=I(-1, 65)),
+        mk(f"mixed_oc{int(oc)}", dict(cap_cpu=I(0, CM), cap_ram=I(0, RM), c2=I(-1, CM + 1), r2=I(-1, RM + 1)),
            overcommit=oc, t2=1, sus_at=1, m1=0, m2=0, m3=0)
     # V2: memory demands vs allocations (individual OOM, pool-level OOM with overcommit)
     for oc in (False, True):
@@ -89,7 +90,7 @@ def spec(tier):
                    "ResourcePool._reconcile_consumed_ram", "Container.__init__", "Container._tick_generator",
                    "Container.tick", "Container.kill", "Container.suspend_container",
                    "Container.suspend_container_tick", "Assignment.__init__", "PipelineRuntimeStatus.transition"],
-        bounds={"ticks": K, "containers": 3, "tick_rate": 1, "cpu": "[-1,9]", "ram_gb": "[-1,66]"},
+        bounds={"ticks": K, "containers": 3, "tick_rate": 1, "cpu": f"[-1,{CM + 1}]", "ram_gb": f"[-1,{RM + 2}]"},
         outside=["runs longer than K ticks", "more than 3 containers per pool", "tick rates other than 1 (rate enters only through tick counts: C05/C10 kernels)"],
         assumptions=["M1 real-valued floats on an integral domain (exact)", "M2 logging f-strings skipped", "M3 logging disabled"],
         explanation=("Bounded symbolic execution (CrossHair+z3) of the real ResourcePool/Container/Assignment classes over a scripted "
